@@ -987,7 +987,7 @@ func stressHedge(seed int64, scale int) int {
 			}
 			select {
 			case w := <-thirdWoke:
-				if w.Sub(returned) > 40*time.Millisecond {
+				if w.Sub(returned) > 80*time.Millisecond { // its own Timeout would end it about 100 ms after the return
 					v.add(fmt.Sprintf("hedge over timeout: the outstanding attempt's context ended %v after the execution returned (its own Timeout, not the hedge policy, ended it)", w.Sub(returned).Round(time.Millisecond)))
 				}
 			case <-time.After(3 * time.Second):
